@@ -61,6 +61,8 @@ def engine_run(ops, table):
                 if e == "Remove":
                     self._should_remove_handler = True
         hs = {}
+        hist = []
+        failed = {}
         for op in ops:
             if op[0] == "add":
                 clock[0] = op[4] / 1000.0
@@ -78,9 +80,15 @@ def engine_run(ops, table):
                     h.loop(sock)
                 sock._cleanup_handlers()
                 sock._loop_func()
+                hist.append([h.hid for h in sock._receive_handlers])
+                for h in sock._receive_handlers:
+                    if h.should_remove_handler:
+                        failed.setdefault(h.hid, op[1])
         sent = [(round(t * 1000), int(d[3:])) for (t, d, dest) in sock._socket.sent]
         handlers = [(h.hid, h._retry_count) for h in sock._receive_handlers]
         sendq = [h.hid for (h, d) in sock._send_handlers]
+        engine_run.last_hist = hist
+        engine_run.last_leftover = failed
         return sent, handlers, sendq
     finally:
         time.monotonic = real
@@ -152,6 +160,13 @@ def run(ctx):
                 table.append((h, verb, rng.choice(["Keep", "Keep", "Remove", "Raise"])))
         ops, now = [], 0
         added = []
+        if k % 5 == 4 and nh >= 2:
+            # twins: requests issued back to back with the same timeout and retry budget give up in the SAME engine iteration, registered next to each other
+            to, rt = rng.choice([100, 400]), rng.randrange(0, 3)
+            for h in range(1, rng.randrange(2, nh + 1) + 1):
+                added.append(h)
+                ops.append(("add", h, to, rt, now))
+                ops.append(("send", h))
         for _ in range(rng.randrange(5, 60)):
             r = rng.random()
             if r < 0.12 and len(added) < nh:
@@ -177,6 +192,13 @@ def run(ctx):
         exprs.append("chk_engine [%s] [%s] [%s] [%s] [%s]" % (
             "; ".join("(%d%%nat, %d, %s)" % t for t in table), "; ".join(cops),
             "; ".join("(%d, %d%%nat)" % s for s in sent), "; ".join("(%d%%nat, %d%%nat)" % h for h in handlers), "; ".join("%d%%nat" % x for x in sendq)))
+        hist = engine_run.last_hist
+        if engine_run.last_leftover:
+            ctx.fail("engine:not_removed", "handler(s) %s answered / out of retries were still registered after the engine iteration that decided it (iteration at ms %s)" % (
+                sorted(engine_run.last_leftover), sorted(engine_run.last_leftover.values())[:3]), {"table": table, "ops": ops, "handlers_after_each_iteration": hist})
+        exprs.append("chk_engine_hist [%s] [%s] [%s]" % ("; ".join("(%d%%nat, %d, %s)" % t for t in table), "; ".join(cops),
+                                                     "; ".join("[%s]" % "; ".join("%d%%nat" % x for x in hh) for hh in hist)))
+        meta.append({"handlers": nh, "table": table, "ops": len(ops), "handlers_after_each_iteration": hist[:8]})
         meta.append({"handlers": nh, "table": table, "ops": len(ops), "transmissions": sent[:6]})
         retx = len(sent) > sum(1 for o in ops if o[0] == "send")
         ctx.case((str(table), str(ops)), nontrivial=retx or nh > 1)
